@@ -82,15 +82,17 @@ def cleanMeta : J → J
   | obj kvs => obj (dropEmptyKey "labels" (dropEmptyKey "annotations" kvs))
   | j => j
 
-/-- what the server stores of a written body: nulls stripped, empty labels/annotations dropped. -/
-def clean (body : Kvs) : Kvs :=
-  let b := dropNullsKvs body
+/-- the metadata normalisation of a (null-free) body: empty labels/annotations are dropped. -/
+def cleanStep (b : Kvs) : Kvs :=
   match lookup "metadata" b with
   | some m =>
       match cleanMeta m with
       | obj [] => erase "metadata" b      -- only system fields are left: they are not part of `body`
       | m' => insert "metadata" m' b
   | none => b
+
+/-- what the server stores of a written body: nulls stripped, empty labels/annotations dropped. -/
+def clean (body : Kvs) : Kvs := cleanStep (dropNullsKvs body)
 
 def withStatus (body : Kvs) : Option J → Kvs
   | some v => insert "status" v body
@@ -271,13 +273,20 @@ def optBeq : Option J → Option J → Bool
 def finsChanged (F T : Obj) : Bool := T.fins != F.fins
 def statusChanged (F T : Obj) : Bool := !(optBeq (lookup "status" T.body) (lookup "status" F.body))
 
-/-- the two merge-patches -/
-def stageMerge (sub : Bool) (p : Patch) (env : Env) (st : St) : M St := do
-  let st1 ← if (bodyPart sub p.fields).isEmpty then pure st
-            else doReq sub env .mergeBody (.merge (bodyPart sub p.fields)) st
+/-- `if body_patch:` merge-patch of the main resource -/
+def stageMergeBody (sub : Bool) (p : Patch) (env : Env) (st : St) : M St :=
+  if (bodyPart sub p.fields).isEmpty then pure st
+  else doReq sub env .mergeBody (.merge (bodyPart sub p.fields)) st
+
+/-- `if status_patch:` merge-patch of `/status` -/
+def stageMergeStatus (sub : Bool) (p : Patch) (env : Env) (st : St) : M St :=
   match statusPart sub p.fields with
-  | some v => doReq sub env .mergeStatus (.merge [("status", v)]) st1
-  | none => pure st1
+  | some v => doReq sub env .mergeStatus (.merge [("status", v)]) st
+  | none => pure st
+
+/-- the two merge-patches -/
+def stageMerge (sub : Bool) (p : Patch) (env : Env) (st : St) : M St :=
+  stageMergeBody sub p env st >>= stageMergeStatus sub p env
 
 /-- the body JSON-patch the fns ask for on the fresh body `F` (none: no body ops). Our fns only
     touch the finalizers and the status; without a subresource the status ops are body ops. -/
